@@ -212,3 +212,21 @@ def require_ok(res, what):
         sys.stderr.write(f"TLC run failed ({what}): rc={res.rc} violated={res.violated} "
                          f"deadlock={res.deadlock}\n{res.tail(60)}\n")
         raise TLCError(what)
+
+
+def prove(module, deps):
+    """Run the TLA+ proof system on spec/<module>.tla (with the modules it extends copied next to it).
+    Returns (proved: bool, obligations: int, tail: str)."""
+    import shutil
+    import subprocess
+    d = os.path.join(scratch(), "tlaps-" + module)
+    os.makedirs(d, exist_ok=True)
+    for f in list(deps) + [module]:
+        shutil.copy(os.path.join(SPEC, f + ".tla"), d)
+    try:
+        p = subprocess.run(["tlapm", "--cleanfp", module + ".tla"], cwd=d, capture_output=True, text=True, timeout=900)
+    except Exception as e:  # noqa: BLE001
+        return False, 0, repr(e)
+    out = p.stdout + p.stderr
+    m = re.search(r"All (\d+) obligations? proved", out)
+    return (p.returncode == 0 and m is not None), (int(m.group(1)) if m else 0), out[-600:]
